@@ -43,6 +43,36 @@ impl GtState {
             rank as int > self.max_rank ==> r.is_err(),
             rank as int <= self.max_rank ==> r.is_ok() && r.unwrap() == self.order_fee_discount_factors[rank as int],
 //@body
+
+    /// glue for `let target = &mut self.order_fee_discount_factors[0..factors.len()]; target.copy_from_slice(factors);`
+    /// (array range slicing + copy_from_slice have no vstd specification): the prefix is overwritten, the rest kept; the panic
+    /// condition of the slicing (length beyond the array) is the precondition
+    #[verifier::external_body]
+    pub fn copy_discount_prefix(&mut self, factors: &[u128])
+        requires factors.len() <= 16
+        ensures final(self).max_rank == old(self).max_rank,
+            forall|i: int| 0 <= i < factors.len() ==> (#[trigger] final(self).order_fee_discount_factors[i]) == factors@[i],
+            forall|i: int| factors.len() <= i < 16 ==> (#[trigger] final(self).order_fee_discount_factors[i]) == old(self).order_fee_discount_factors[i],
+    { unimplemented!() }
+
+//@unit C31.GtState.set_order_fee_discount_factors
+//@ file programs/store/src/states/gt.rs
+//@ within impl GtState
+//@ fn set_order_fee_discount_factors
+//@ sig fn set_order_fee_discount_factors(&mut self, factors: &[u128]) -> Result<()>
+//@ subopt if !\(factors\s*\.iter\(\)\s*\.all\(\|factor\| \*factor <= (?:constants::)?MARKET_USD_UNIT\)\) \{ => let mut _all23 = true; let mut _i23: usize = 0; while _i23 < factors.len() { if !(factors[_i23] <= MARKET_USD_UNIT) { _all23 = false; break; } _i23 += 1; } if !_all23 {
+//@ loopopt 1: invariant_except_break _all23, invariant _i23 <= factors.len(), forall|j: int| 0 <= j < _i23 ==> factors@[j] <= uunit(), ensures _all23 ==> _i23 == factors.len(), !_all23 ==> _i23 < factors.len() && factors@[_i23 as int] > uunit(), forall|j: int| 0 <= j < _i23 ==> factors@[j] <= uunit(), decreases factors.len() - _i23,
+//@ sub let target = &mut self\.order_fee_discount_factors\[0\.\.factors\.len\(\)\];\s*target\.copy_from_slice\(factors\); => self.copy_discount_prefix(factors);
+    pub fn set_order_fee_discount_factors(&mut self, factors: &[u128]) -> (r: Result<(), E>)
+        requires gt_wf(*old(self)), factors_valid(*old(self)),
+        ensures
+            // RULE R23 (logged): `factors.iter().all(|f| P(f))` visits the slice front to back and stops at the first `false`.
+            // accepted exactly when there is one factor per rank 0..=max_rank and EVERY factor is at most 100%
+            r.is_ok() == (factors.len() == old(self).max_rank + 1 && forall|j: int| 0 <= j < factors.len() ==> factors@[j] <= uunit()),
+            // the table then holds them, and every stored factor is still a valid fraction
+            r.is_ok() ==> (forall|i: int| 0 <= i < factors.len() ==> final(self).order_fee_discount_factors[i] == factors@[i]) && factors_valid(*final(self)) && final(self).max_rank == old(self).max_rank,
+            r.is_err() ==> *final(self) == *old(self),
+//@body
 }
 
 impl Store {
